@@ -129,6 +129,7 @@ Qed.
 Definition roman_ok (k : nat) : bool :=
   match to_roman (N.of_nat k) with
   | Some s => Z.eqb (roman_decode s) (Z.of_nat k) && forallb (fun c => negb (roman_letter_value c =? 0)) s
+              && Z.eqb (roman_text_decode s) (Z.of_nat k)
   | None => false
   end.
 
@@ -141,7 +142,18 @@ Proof.
   intros n H. pose proof roman_sweep as S. rewrite forallb_forall in S.
   specialize (S (N.to_nat n)). assert (Hin : In (N.to_nat n) (seq 1 (N.to_nat roman_limit))) by (apply in_seq; lia).
   apply S in Hin. unfold roman_ok in Hin. rewrite N2Nat.id in Hin.
-  destruct (to_roman n) as [s|]; [|discriminate]. apply andb_prop in Hin. destruct Hin as [H1 _].
+  destruct (to_roman n) as [s|]; [|discriminate]. apply andb_prop in Hin. destruct Hin as [Hin _].
+  apply andb_prop in Hin. destruct Hin as [H1 _].
+  exists s. split; [reflexivity|]. apply Z.eqb_eq in H1. rewrite H1. lia.
+Qed.
+
+Lemma roman_text_roundtrip_l : forall n, 1 <= n <= roman_limit ->
+  exists s, to_roman n = Some s /\ roman_text_decode s = Z.of_N n.
+Proof.
+  intros n H. pose proof roman_sweep as S. rewrite forallb_forall in S.
+  specialize (S (N.to_nat n)). assert (Hin : In (N.to_nat n) (seq 1 (N.to_nat roman_limit))) by (apply in_seq; lia).
+  apply S in Hin. unfold roman_ok in Hin. rewrite N2Nat.id in Hin.
+  destruct (to_roman n) as [s|]; [|discriminate]. apply andb_prop in Hin. destruct Hin as [_ H1].
   exists s. split; [reflexivity|]. apply Z.eqb_eq in H1. rewrite H1. lia.
 Qed.
 
@@ -232,4 +244,37 @@ Proof.
       induction n0 as [|k IH]; [reflexivity|]. cbn. exact IH. }
     rewrite Hf, dec_value_zeros. apply format_u64_decode; assumption.
   - apply format_u64_decode; assumption.
+Qed.
+
+(* ---------------------------------------------------------------------------------------------
+   toRoman above the limit: the two variants of /repo (GenNum7.roman_overflow_decimal) *)
+Lemma forallb_rev : forall (A : Type) (p : A -> bool) l, forallb p (rev l) = forallb p l.
+Proof.
+  intros A p l. induction l as [|x l IH]; [reflexivity|]. cbn [rev forallb].
+  rewrite forallb_app, IH. cbn [forallb]. rewrite andb_true_r. apply andb_comm.
+Qed.
+
+Lemma decimal_text : forall n, forallb is_digit (decimal n) = true /\ dec_value (decimal n) = n.
+Proof.
+  intros n. destruct (decimal_rev_ok n) as [V D]. unfold decimal. rewrite forallb_rev, dec_value_rev. split; assumption.
+Qed.
+
+(* repaired code: every n >= 1 decodes, the decimal fallback included *)
+Lemma roman_full_if : roman_overflow_decimal = true ->
+  forall n, 1 <= n -> exists s, to_roman n = Some s /\ roman_text_decode s = Z.of_N n.
+Proof.
+  intros Hv n Hn. destruct (n <=? roman_limit) eqn:E.
+  - apply roman_text_roundtrip_l. lia.
+  - unfold to_roman. destruct (n =? 0) eqn:E0; [lia|]. destruct (roman_limit <? n) eqn:E1; [|lia].
+    rewrite Hv. exists (decimal n). split; [reflexivity|].
+    destruct (decimal_text n) as [D V]. unfold roman_text_decode. rewrite D, V. reflexivity.
+Qed.
+
+(* unrepaired code: 4000 prints the error string *)
+Lemma roman_refuted_if : roman_overflow_decimal = false ->
+  exists n, 1 <= n /\ to_roman n = Some error_string /\ roman_text_decode error_string <> Z.of_N n.
+Proof.
+  intros Hv. exists 4000. split; [lia|]. split.
+  - unfold to_roman. rewrite Hv. vm_compute. reflexivity.
+  - vm_compute. discriminate.
 Qed.
